@@ -49,6 +49,20 @@ pub fn run_case(
     cfg: Cfg,
     backend: BackendKind,
 ) -> (Vec<(&'static str, Value, String)>, String, usize) {
+    run_case_ext(a, b, cfg, backend, None)
+}
+
+/// `recreate`: after the two sessions, replica A's document is removed from its store and created
+/// again (empty, same store); one more session, initiated by A (`Some(true)`) or by B, must bring
+/// both back to the join. A replica state reached through removal and re-creation is as reachable
+/// as any other.
+pub fn run_case_ext(
+    a: &State,
+    b: &State,
+    cfg: Cfg,
+    backend: BackendKind,
+    recreate: Option<bool>,
+) -> (Vec<(&'static str, Value, String)>, String, usize) {
     let ns = ns_id(0);
     let mut bad = vec![];
     let wit = |extra: Value| {
@@ -157,6 +171,37 @@ pub fn run_case(
             }
         }
     }
+    if let Some(a_initiates) = recreate {
+        if let Party::Real { sut, .. } = &mut pa {
+            let removed = sut.store.remove_replica(&ns);
+            let created = sut.store.import_namespace(iroh_docs::Capability::Write(crate::universe::ns_secret(0)));
+            if removed.is_err() || created.is_err() {
+                bad.push(("session_returns_ok", wit(json!({"recreate": true})), format!("remove / re-create failed: {removed:?} {:?}", created.map(|_| ()))));
+            }
+        }
+        let after_removal = pa.dump(ns);
+        if !after_removal.is_empty() {
+            bad.push(("converges_to_join", wit(json!({"recreate": true, "recreated_replica_not_empty": true})), format!("the re-created replica holds {}", show_entries(&after_removal))));
+        }
+        let res = if a_initiates {
+            run_session(&mut pa, &mut pb, ns, cfg, bound, None)
+        } else {
+            run_session(&mut pb, &mut pa, ns, cfg, bound, None)
+        };
+        match res {
+            Err(e) => bad.push(("session_returns_ok", wit(json!({"recreate": true})), format!("session after re-creation failed: {e:#}"))),
+            Ok(s3) => {
+                let (da3, db3) = (pa.dump(ns), pb.dump(ns));
+                if !s3.terminated || da3 != want || db3 != want {
+                    bad.push((
+                        "converges_to_join",
+                        wit(json!({"recreate": true, "a_ok": da3 == want, "b_ok": db3 == want, "initiator": if a_initiates { "re-created" } else { "peer" }})),
+                        format!("A's document was removed and re-created, then one more session ({} initiating): A={} B={} expected {}", if a_initiates { "A" } else { "B" }, show_entries(&da3), show_entries(&db3), show_entries(&want)),
+                    ));
+                }
+            }
+        }
+    }
     let rendering = format!(
         "msgs={} a={}/{} b={}/{} final={}",
         s1.messages,
@@ -172,13 +217,31 @@ pub fn run_case(
 fn run(ctx: &Ctx, report: &mut Report) {
     crate::util::silence_panics();
     let mut ordinal = 0u64;
-    let mut exec = |report: &mut Report, a: &State, b: &State, cfg: Cfg, backend: BackendKind| {
+    let mut exec_rc = |report: &mut Report, a: &State, b: &State, cfg: Cfg, backend: BackendKind, recreate: Option<bool>| {
         ordinal += 1;
         if !ctx.mine(ordinal) {
             return;
         }
-        one(report, a, b, cfg, backend, ordinal);
+        one(report, a, b, cfg, backend, recreate, ordinal);
     };
+    // life cycle: after the sessions A's document is removed and created again, one more session
+    // (either side initiating) must restore it
+    {
+        let s12 = states_from_subsets(&universe12(), 2);
+        for a in &s12 {
+            for b in &s12 {
+                if b.model.len() == 0 {
+                    continue;
+                }
+                exec_rc(report, a, b, DEFAULT_CFG, BackendKind::Mem, Some(true));
+                exec_rc(report, a, b, DEFAULT_CFG, BackendKind::Mem, Some(false));
+                if nontrivial_pair(a, b) && !ctx.quick() {
+                    exec_rc(report, a, b, DEFAULT_CFG, BackendKind::File, Some(true));
+                }
+            }
+        }
+    }
+    let mut exec = |report: &mut Report, a: &State, b: &State, cfg: Cfg, backend: BackendKind| exec_rc(report, a, b, cfg, backend, None);
     match ctx.tier {
         Tier::Quick => {
             let s12_3 = states_from_subsets(&universe12(), 3);
@@ -276,7 +339,7 @@ fn run(ctx: &Ctx, report: &mut Report) {
     }
 }
 
-fn one(report: &mut Report, a: &State, b: &State, cfg: Cfg, backend: BackendKind, ordinal: u64) {
+fn one(report: &mut Report, a: &State, b: &State, cfg: Cfg, backend: BackendKind, recreate: Option<bool>, ordinal: u64) {
     report.evaluations += 1;
     report.traces += 1;
     // for the flat-key family (no prefix relations by construction) a pair is non-trivial when
@@ -286,9 +349,15 @@ fn one(report: &mut Report, a: &State, b: &State, cfg: Cfg, backend: BackendKind
     if nt {
         report.nontrivial += 1;
     }
-    let case = || case_json(&a.offered, &b.offered, cfg, backend);
+    let case = || {
+        let mut c = case_json(&a.offered, &b.offered, cfg, backend);
+        if let Some(r) = recreate {
+            c["recreate"] = json!(r);
+        }
+        c
+    };
     let _watch = crate::util::watch::enter("reconciliation session pair", case());
-    match catch(|| run_case(a, b, cfg, backend)) {
+    match catch(|| run_case_ext(a, b, cfg, backend, recreate)) {
         Err(p) => report.violation(
             "no_panic",
             json!({"cfg": format!("{:?}", cfg), "backend": backend}),
@@ -328,7 +397,8 @@ pub fn case_from_json(v: &Value) -> anyhow::Result<(State, State, Cfg, BackendKi
 
 fn replay(case: &Value) -> anyhow::Result<(bool, String)> {
     let (a, b, cfg, backend) = case_from_json(case)?;
-    match catch(|| run_case(&a, &b, cfg, backend)) {
+    let recreate = case.get("recreate").and_then(|r| r.as_bool());
+    match catch(|| run_case_ext(&a, &b, cfg, backend, recreate)) {
         Err(p) => Ok((true, format!("panic: {p}"))),
         Ok((bad, rendering, _)) => {
             let mut out = format!(
